@@ -147,6 +147,10 @@ func model(r rcase) expect {
 			}
 			return expect{form: "last-k", exact: true, lo: n - k + 1, hi: n}
 		}
+		if r.s <= -1 && -r.s > n && !r.eflag && n > 0 {
+			// "the last k items" of a list that has fewer than k items: all of them
+			return expect{form: "last-k-clipped", exact: true, lo: 1, hi: n}
+		}
 	case r.s == none && r.e != none:
 		if r.e >= 1 {
 			if r.eflag {
@@ -318,12 +322,12 @@ func replay(c *vlib.Ctx, w string) {
 func init() {
 	vlib.Register(&vlib.Check{
 		ID: "C17", Engine: "E2",
-		Rule:   "lists of n = 0..N distinct items x1..xn are injected as typed stdin (str list, json array; thorough also jsonl) and filtered with `[s..e]` and `[s..e]e` for every start and end in {omitted} u [LO, HI]; quick N=8 LO=-4 HI=12, thorough N=30 LO=-5 HI=35. The printed items are compared with a slice model for the forms the statement defines (1<=s<=e; [s..]; [..e]; [-k..] with k<=n; with e: s+1..e-1 when both bounds are given, otherwise a contiguous slice without the named end-point item); every case must exit cleanly or fail with a message, print an in-order subsequence of the input and never report a panic. non-trivial = a defined form on a non-empty list whose model result is a proper part of the input, or any defined form with the e flag",
+		Rule:   "lists of n = 0..N distinct items x1..xn are injected as typed stdin (str list, json array; thorough also jsonl) and filtered with `[s..e]` and `[s..e]e` for every start and end in {omitted} u [LO, HI]; quick N=8 LO=-4 HI=12, thorough N=30 LO=-5 HI=35. The printed items are compared with a slice model for the forms the statement defines (1<=s<=e; [s..]; [..e]; [-k..] (clipped to the list when k>n, without the e flag); with e: s+1..e-1 when both bounds are given, otherwise a contiguous slice without the named end-point item); every case must exit cleanly or fail with a message, print an in-order subsequence of the input and never report a panic. non-trivial = a defined form on a non-empty list whose model result is a proper part of the input, or any defined form with the e flag",
 		Run:    run,
 		Replay: replay,
 		Assumptions: []string{
 			"the exit number is compared only when the model result is non-empty (json reports 'no data returned' for an empty result, str prints nothing and exits 0; the statement observes stdout)",
-			"bounds 0, a negative end, s > e, -k with k > n and `[..]` are outside the statement: only the universal clauses are asserted",
+			"bounds 0, a negative end, s > e, -k with k > n together with the e flag, and `[..]` are outside the statement: only the universal clauses are asserted",
 			"only the default (index) matcher and the e flag are in scope; r/s/n/b/t/8 flags are not exercised",
 		},
 	})
